@@ -256,6 +256,9 @@ def execute(scn_cls, seed=None, config=None, steps=None, keep_events=False, scra
                     st = scn.gen_step(rng)
                     if st is None:
                         break
+                    if "alt" not in st:
+                        # which public spelling of the call to use: op(key, ...) or op_alt(hashes(key), ...)
+                        st["alt"] = rng.chance(1, 4)
                     st = json.loads(canon(st))
                     res.steps.append(st)
                     out = scn.apply(st)
